@@ -889,7 +889,7 @@ func (e *Enc) instr(ins ssa.Instruction) {
 		e.assert(implies(e.reach[e.curBlock], e.typeFacts(e.vals[x].T, x.Type())))
 		t := x.Type().(*types.Pointer).Elem()
 		if _, isArr := under(t).(*types.Array); isArr && scratchBuffer(x, 0) {
-			e.scratch = append(e.scratch, scratchObj{root: e.rootOf(a), reach: e.reach[e.curBlock]})
+			e.scratch = append(e.scratch, scratchObj{root: e.rootOf(a), reach: e.reach[e.curBlock], blk: e.curBlock})
 		}
 		e.registerLocalCells(x, e.vals[x].T)
 		e.store(h, e.vals[x].T, nil, t, e.zero(t))
@@ -1009,7 +1009,7 @@ func (e *Enc) instr(ins ssa.Instruction) {
 		o := e.newObj(h)
 		v := e.define(x, app("mkslice", o, "0", ln, cp))
 		if scratchBuffer(x, 0) {
-			e.scratch = append(e.scratch, scratchObj{root: e.rootOf(o), reach: e.reach[e.curBlock]})
+			e.scratch = append(e.scratch, scratchObj{root: e.rootOf(o), reach: e.reach[e.curBlock], blk: e.curBlock})
 		}
 		if e.token && isByteSlice(x.Type()) {
 			e.setBytes(h, v.T, app("bzeros", ln))
